@@ -50,6 +50,78 @@ def prepare(tier):
     _CORPUS = corpus.load()
 
 
+class _EnumChooser:
+    """Chooser whose scheduler decisions ('pool.event') follow a given prefix (then 0) and whose configuration is forced."""
+
+    def __init__(self, forced, prefix, seed_parts):
+        from atomsim.chooser import Chooser, RandomSource, derive_seed
+
+        self._c = Chooser(RandomSource(derive_seed(*seed_parts)))
+        self.forced = forced
+        self.prefix = list(prefix)
+        self.arities = []
+        self.pos = 0
+        self.tape = self._c.tape
+        self.marks = self._c.marks
+
+    def choose(self, label, n):
+        n = max(1, int(n))
+        if label == "pool.event":
+            v = self.prefix[self.pos] if self.pos < len(self.prefix) else 0
+            self.pos += 1
+            self.arities.append(n)
+            v = min(v, n - 1)
+            self.tape.append([label, n, v])
+            return v
+        if label in self.forced:
+            v = self.forced[label]
+            self.tape.append([label, n, v])
+            return v
+        return self._c.choose(label, n)
+
+    def __getattr__(self, name):  # flip / pick / uniform ... are built on choose()
+        import types
+        from atomsim.chooser import Chooser
+
+        f = getattr(Chooser, name)
+        return types.MethodType(f, self)
+
+
+def enumerate_schedules(project, n, w, seed, limit=4000):
+    """ALL task->worker assignments and completion orders of one small parallel call (odometer over scheduler choices)."""
+    from atomsim.chooser import REAL_RES
+
+    names = [nm for nm in PROJECTS if nm in _CORPUS] + corpus.generated_names()
+    forced = {
+        "project": names.index(project), "use_programs": 0, "explicit_interactions": 0, "sigma_mode": 0, "api": 0, "parallel": REAL_RES - 1,
+        "n_samples": n - 2, "n_samples'": n - 2, "cpu_count": w - 1, "explicit_workers": REAL_RES - 1, "workers": w - 1, "workers'": w - 1,
+        "prior_rng": 0, "retry_rate": 0,
+    }
+    for i in range(w):
+        forced[f"pool.late[{i}]"] = 0
+    prefix = []
+    count = 0
+    violations = []
+    sigs = set()
+    while count < limit:
+        ch = _EnumChooser(forced, prefix, ("c17-enum", seed, project, n, w))
+        r = run(ch, 0, "quick")
+        count += 1
+        sigs.add(r["signature"])
+        for v in r["violations"]:
+            violations.append((v["cls"], v["site"], list(prefix)))
+        # odometer: next prefix in lexicographic order over the arities actually seen
+        ar = ch.arities
+        pre = (list(prefix) + [0] * len(ar))[: len(ar)]
+        k = len(ar) - 1
+        while k >= 0 and pre[k] >= ar[k] - 1:
+            k -= 1
+        if k < 0:
+            return {"project": project, "n": n, "workers": w, "schedules": count, "distinct": len(sigs), "exhaustive": True, "violations": violations[:5]}
+        prefix = pre[:k] + [pre[k] + 1]
+    return {"project": project, "n": n, "workers": w, "schedules": count, "distinct": len(sigs), "exhaustive": False, "violations": violations[:5]}
+
+
 def extra(tier, seed):
     """
     Stub fidelity (DESIGN 3.3): the same call on the REAL fork pools and on the simulated pool, from the same parent
@@ -106,6 +178,17 @@ def extra(tier, seed):
             errors.append(f"stub fidelity case {name}/{n}/{w} failed to run: {type(e).__name__}: {e}")
     if out["stub_fidelity"]["mismatches"]:
         errors.append(f"STUB-FIDELITY: real pool and simulated pool disagree: {out['stub_fidelity']['mismatches']}")
+    # exhaustive enumeration of the schedule space for tiny pools
+    enum_cases = [("udt", 2, 2), ("udt", 3, 2)] + ([("udt", 4, 3), ("tb_simple", 4, 2), ("udt", 3, 3)] if tier == "thorough" else [])
+    out["schedule_enumeration"] = []
+    for project, n, w in enum_cases:
+        try:
+            e = enumerate_schedules(project, n, w, seed)
+            out["schedule_enumeration"].append(e)
+            if e["violations"]:
+                errors.append(f"ENUMERATION-VIOLATION (not minimised, see quick batch for replay files): {e['violations'][:2]}")
+        except Exception as ex:
+            errors.append(f"schedule enumeration {project}/{n}/{w} failed: {type(ex).__name__}: {ex}")
     out["errors"] = errors
     return out
 
